@@ -14,6 +14,10 @@ def one(exe, depth, modes, with_data, d, tag):
         env.pop('BXDECAY0_DBD_GA_DATA_DIR', None)
     r = subprocess.run([exe, '--depth', str(depth), '--modes', modes, '--with-ga-data', '1' if with_data else '0', '--out', out], env=env,
                        timeout=3400, stdout=subprocess.PIPE, stderr=subprocess.PIPE, text=True)
+    if r.returncode == 77 and os.path.exists(out + '.crash'):
+        txt = open(out + '.crash').read().split('\n', 1)
+        return {'states': 0, 'transitions': 0, 'probes': 0, 'max_depth': 0, 'closed': False, 'ops': 0, 'outcomes': 0, 'samples': [],
+                'violations': [{'key': 'crash:' + txt[1].rsplit(' ; ', 1)[-1][:60], 'text': 'the process died (%s) while this history was applied: [%s]' % (txt[0], txt[1])}]}
     if r.returncode != 0 or 'HARNESS-ERROR' in r.stdout:
         raise SystemExit('HARNESS-ERROR: c09 exited %d %s %s' % (r.returncode, r.stdout[-500:], r.stderr[-500:]))
     return json.load(open(out))
@@ -44,12 +48,12 @@ def run(tier, rep):
         'states': st, 'transitions': tr, 'traces_validated_against_impl': tr, 'probe_shots_against_fresh_instance': pr,
         'evaluations': tr, 'distinct_nontrivial': st,
         'depth_completed': max(r['max_depth'] for r in runs), 'closed_under_alphabet': all(r['closed'] for r in runs),
-        'exhaustive': True, 'operations': runs[0]['ops'], 'distinct_outcomes': max(r['outcomes'] for r in runs),
+        'exhaustive': all(r['ops'] for r in runs), 'operations': max(r['ops'] for r in runs), 'distinct_outcomes': max(r['outcomes'] for r in runs),
         'samples': samples or ['none'],
         'rule': 'breadth-first search over all sequences of the %d-operation alphabet (setters with valid/invalid arguments, add_operation(MDL|null), initialize, '
                 'shoot, reset, destroy+new) up to the stated depth, plus three auxiliary entry points (mode by valid / unknown label, set_decay_version) applied as leaves after every transition; a second run uses the window-capable mode 4 so that toallevents != 1 before reset; state = history replayed on a fresh decay0_generator, merged by the state of the '
                 'reference machine plus a sticky mark of the last refused operation (for initialize: with the state it was refused in); every transition '
-                'checks exception<->reference, all getters, defaults after reset (including every field of get_bb_params()), and the probe shot against a fresh instance configured alike' % runs[0]['ops'],
+                'checks exception<->reference, all getters, defaults after reset (including every field of get_bb_params()), and the probe shot against a fresh instance configured alike' % max(r['ops'] for r in runs),
     })
     rep.assumptions += ['the reference machine follows the literal statement of the property (reset from any state yields a new-like object)',
                         'validity of a configuration = reference GENBBsub rules (transpiled, kernel stubbed) + README rules for the gA modes',
